@@ -38,6 +38,7 @@ const (
 func runC07(t *vs.Tape, cfg map[string]string) (res vs.Result) {
 	c := vs.Counters{}
 	res.Counters = c
+	bigRebuildReruns = 0
 	disk := newDisk()
 	simdisk.SetCurrent(disk)
 	defer simdisk.SetCurrent(nil)
@@ -209,7 +210,21 @@ func runC07(t *vs.Tape, cfg map[string]string) (res vs.Result) {
 	// of signatures, every image costs ~50 ms) they are thinned to at most ~90,
 	// always keeping the boundaries of every API call.
 	keep := map[int]bool{}
-	thin := bulkScript && len(log)-base > 90
+	sawBulk := bulkScript
+	for _, h := range hist {
+		if h.kind == opBulkAdd {
+			sawBulk = true // an ordinary history whose operation mix happened to include a bulk load
+		}
+	}
+	thin := sawBulk && len(log)-base > 90
+	keepN := 100
+	if !thin && cfg["tier"] != "thorough" && len(log)-base > 700 {
+		// quick tier only: a history whose background flushes and compactions issued
+		// many hundreds of file-system operations is sampled (every API-call boundary
+		// plus 500 seeded points) instead of enumerated; the thorough tier enumerates
+		thin, keepN = true, 500
+		c.Inc("runs_crash_points_sampled_large_history")
+	}
 	if thin {
 		for _, h := range hist {
 			for _, q := range []int{h.inv, h.inv + 1, h.ret - 1, h.ret, h.ret + 1} {
@@ -224,10 +239,12 @@ func runC07(t *vs.Tape, cfg map[string]string) (res vs.Result) {
 		}
 		sc := &simdisk.SeedChooser{S: tornSeed + 17}
 		// (bounded: the range may hold fewer than 100 distinct points)
-		for tries := 0; len(keep) < 100 && tries < 2000; tries++ {
+		for tries := 0; len(keep) < keepN && tries < 20*keepN; tries++ {
 			keep[base+sc.Intn(len(log)-base+1, "thin")] = true
 		}
-		c.Inc("runs_crash_points_thinned")
+		if keepN == 100 {
+			c.Inc("runs_crash_points_thinned")
+		}
 	}
 	for q := base; q <= len(log); q++ {
 		if thin && !keep[q] {
@@ -317,9 +334,13 @@ func checkImage(img *simdisk.Disk, cur *storeModel, fl *histOp, where string, c 
 			s.Close()
 		}
 	}()
+	rebuildLeftInterrupted = false
 	chosen, v := checkRecovered(s, cur, fl, where, c)
 	if v != nil {
 		return v
+	}
+	if rebuildLeftInterrupted {
+		return nil
 	}
 	// The recovered store accepts a further mutation and stays consistent.
 	if (q+mi)%3 == 0 {
@@ -384,6 +405,13 @@ var harnessMutated bool
 // the timing of Pebble's background cleanup.
 var recoverVariant int
 
+// bigRebuildReruns counts, per history, the interrupted-rebuild images of a
+// bulk-loaded store whose rebuild was run again (see checkRecovered).
+var bigRebuildReruns int
+
+// rebuildLeftInterrupted: checkRecovered skipped the re-run on this image.
+var rebuildLeftInterrupted bool
+
 // checkRecovered decides which of the admissible models the recovered store
 // shows; returns the matching model.
 func checkRecovered(s *PebbleScanner, cur *storeModel, fl *histOp, where string, c vs.Counters) (*storeModel, *vs.Violation) {
@@ -403,6 +431,17 @@ func checkRecovered(s *PebbleScanner, cur *storeModel, fl *histOp, where string,
 		if v := checkAll(s, fl.before, scopeRecordsOnly, false, where+": "); v != nil {
 			v.Class = "C07/rebuild-interrupted/" + v.Class
 			return nil, v
+		}
+		// (a history with several rebuilds over a bulk-loaded store has hundreds of
+		// such images and each re-run walks every record: after 150 of them per
+		// history the remaining images get the no-record-lost check only)
+		if len(fl.before.sigs) > 500 {
+			bigRebuildReruns++
+			if bigRebuildReruns > 150 {
+				c.Inc("images_rebuild_inflight_records_only")
+				rebuildLeftInterrupted = true // indexes may still be partial: no further full-consistency step on this image
+				return fl.before, nil
+			}
 		}
 		// Sometimes the operator mutates the store between the crash and the
 		// re-run (deletes the first signature, adds another): the re-run must still
